@@ -50,7 +50,7 @@ func (propC02) Gen(r *Rng, tier string) *World {
 	w := &World{Prop: "C02"}
 	w.Prog = g.Program()
 	w.Cfg = g.C
-	w.Cfg.DirStyle = r.Intn(6)
+	w.Cfg.DirStyle = r.Intn(8)
 	w.Cfg.ViaAPI = r.P(0.4)
 	w.Cfg.Event = []string{"", "", "", "", "report"}[r.Intn(5)]
 	// cost map
